@@ -12,23 +12,23 @@ import (
 // ReplayFile is the on-disk form of one failing (or sample) run.  The tape is
 // the whole payload: replay = execute the property on this tape.
 type ReplayFile struct {
-	Property   string         `json:"property"`
-	Tier       string         `json:"tier"`
-	Variant    string         `json:"variant"`
-	BaseSeed   uint64         `json:"base_seed"`
-	RunIndex   int            `json:"run_index"`
-	SweepK     int            `json:"sweep_k"`
-	Class      string         `json:"class"`
-	Key        string         `json:"key"`
-	Msg        string         `json:"msg"`
-	Tape       []uint32       `json:"tape"`
-	OrigTapeLen int           `json:"original_tape_len"`
-	ShrinkExecs int           `json:"shrink_executions"`
-	TraceHash  string         `json:"trace_hash"`
-	Choices    []string       `json:"choices,omitempty"`
-	Trace      []string       `json:"trace,omitempty"`
-	All        []rt.Violation `json:"all_violations,omitempty"`
-	Instr      []rt.InstrInfo `json:"instrumentation,omitempty"`
+	Property    string         `json:"property"`
+	Tier        string         `json:"tier"`
+	Variant     string         `json:"variant"`
+	BaseSeed    uint64         `json:"base_seed"`
+	RunIndex    int            `json:"run_index"`
+	SweepK      int            `json:"sweep_k"`
+	Class       string         `json:"class"`
+	Key         string         `json:"key"`
+	Msg         string         `json:"msg"`
+	Tape        []uint32       `json:"tape"`
+	OrigTapeLen int            `json:"original_tape_len"`
+	ShrinkExecs int            `json:"shrink_executions"`
+	TraceHash   string         `json:"trace_hash"`
+	Choices     []string       `json:"choices,omitempty"`
+	Trace       []string       `json:"trace,omitempty"`
+	All         []rt.Violation `json:"all_violations,omitempty"`
+	Instr       []rt.InstrInfo `json:"instrumentation,omitempty"`
 }
 
 func hasClass(vs []rt.Violation, class string) *rt.Violation {
@@ -40,14 +40,23 @@ func hasClass(vs []rt.Violation, class string) *rt.Violation {
 	return nil
 }
 
+func hasClassKey(vs []rt.Violation, class, key string) *rt.Violation {
+	for i := range vs {
+		if vs[i].Class == class && vs[i].Key == key {
+			return &vs[i]
+		}
+	}
+	return nil
+}
+
 // shrinkTape minimises tape while a violation of the same class persists.
-func shrinkTape(p *Prop, tier string, tape []uint32, class string, budget time.Duration) ([]uint32, int) {
+func shrinkTape(p *Prop, tier string, tape []uint32, class, key string, budget time.Duration) ([]uint32, int) {
 	execs := 0
 	start := time.Now()
 	fails := func(t []uint32) bool {
 		execs++
 		res := execRun(p, rt.NewReplayTape(t), tier, false)
-		return hasClass(res.Violations, class) != nil
+		return hasClassKey(res.Violations, class, key) != nil
 	}
 	over := func() bool { return time.Since(start) > budget || execs > 20000 }
 	cur := append([]uint32(nil), tape...)
@@ -157,7 +166,7 @@ func shrinkMain(fs *flag.FlagSet, args []string) {
 		die2("unknown property %s", rf.Property)
 	}
 	rf.OrigTapeLen = len(rf.Tape)
-	small, execs := shrinkTape(p, rf.Tier, rf.Tape, rf.Class, time.Duration(*secs)*time.Second)
+	small, execs := shrinkTape(p, rf.Tier, rf.Tape, rf.Class, rf.Key, time.Duration(*secs)*time.Second)
 	if small == nil {
 		die2("violation class %s did not reproduce in the shrinker (harness nondeterminism?)", rf.Class)
 	}
@@ -186,8 +195,7 @@ func fillReplay(p *Prop, rf *ReplayFile) {
 		}
 		rf.Choices = append(rf.Choices, fmt.Sprintf("%s=%d", l, t.Rec[i]))
 	}
-	if v := hasClass(res.Violations, rf.Class); v != nil {
-		rf.Key = v.Key
+	if v := hasClassKey(res.Violations, rf.Class, rf.Key); v != nil {
 		rf.Msg = v.Msg
 	}
 }
@@ -220,7 +228,7 @@ func replayMain(fs *flag.FlagSet, args []string) {
 	for _, v := range res.Violations {
 		fmt.Printf("  violated: class=%s key=%s\n    %s\n", v.Class, v.Key, v.Msg)
 	}
-	if v := hasClass(res.Violations, rf.Class); v != nil {
+	if v := hasClassKey(res.Violations, rf.Class, rf.Key); v != nil {
 		fmt.Printf("VIOLATION property=%s replay=%s\n", rf.Property, *file)
 		os.Exit(1)
 	}
